@@ -112,6 +112,20 @@ pub fn check_set(ctx: &Ctx, fac: &FacChoice, input: &[(Key, [f32; 3])], r: &mut 
         FacChoice::Loc { red1, red2, .. } | FacChoice::User { red1, red2, .. } => (*red1, *red2),
     };
     let wit = |extra: Value| json!({"factors": fac, "observed": extra});
+    // history: the same source was prepared a moment ago, in this process, with user RED values that differ only beyond
+    // the third decimal (what a cache keyed by the printed form of the values would confuse)
+    if (red1.is_some() || red2.is_some()) && r.chance(1, 3) {
+        let bump = |x: Option<[f32; 3]>| x.map(|v| [v[0] + 0.0002, v[1] + 0.0003, v[2] + 0.0001]);
+        let mut twin = fac.clone();
+        match &mut twin {
+            FacChoice::Loc { red1, red2, .. } | FacChoice::User { red1, red2, .. } => {
+                *red1 = bump(*red1);
+                *red2 = bump(*red2);
+            }
+        }
+        let _ = safe::guard(|| twin.build());
+        t.count("history.near_twin_user_values_prepared_first");
+    }
     t.evaluations += 1;
     let got = safe::guard(|| fac.build());
     let want = expect_prepared(input, red1, red2);
